@@ -540,6 +540,19 @@ func parseExpires(expires *string) *time.Time {
 	return nil
 }
 
+// encodeTagging encodes a tag set as an x-amz-tagging header value. Returns
+// nil for an empty tag set.
+func encodeTagging(tags map[string]string) *string {
+	if len(tags) == 0 {
+		return nil
+	}
+	values := url.Values{}
+	for k, v := range tags {
+		values.Set(k, v)
+	}
+	return aws.String(values.Encode())
+}
+
 func (rs *s3ClientStorage) PutObject(ctx context.Context, bucketName storage.BucketName, key storage.ObjectKey, contentType *string, reader io.Reader, checksumInput *storage.ChecksumInput, opts *storage.PutObjectOptions) (*storage.PutObjectResult, error) {
 	ctx, span := rs.tracer.Start(ctx, "S3ClientStorage.PutObject")
 	defer span.End()
@@ -582,6 +595,9 @@ func (rs *s3ClientStorage) PutObject(ctx context.Context, bucketName storage.Buc
 	}
 	if opts != nil && opts.StorageClass != nil {
 		input.StorageClass = types.StorageClass(*opts.StorageClass)
+	}
+	if opts != nil {
+		input.Tagging = encodeTagging(opts.Tags)
 	}
 	putObjectResult, err := rs.s3Client.PutObject(ctx, input)
 	var notFoundError *types.NotFound
